@@ -3,6 +3,8 @@
 Top-level postconditions are taken from the property statements; frames, helper preconditions
 and shapes from the code and its call sites.
 """
+import asyncio
+
 import bellows.ash as ash
 import bellows.types as t
 
@@ -27,7 +29,15 @@ GATEWAY = ext_class(
     connection_lost=effect(),
     eof_received=effect(),
 )
-SEMAPHORE = ext_class("semaphore")
+from pyvc.calls import ExtMethod
+
+SEMAPHORE = ext_class(
+    "semaphore",
+    fields={"is_locked": T.bool},
+    locked=field("is_locked"),
+    __aenter__=ExtMethod("__aenter__", effect=True, is_async=True),
+    __aexit__=ExtMethod("__aexit__", effect=True),
+)
 
 # ---------------------------------------------------------------------------
 # frame shapes as produced by parse_frame (well-formed frames)
@@ -39,6 +49,28 @@ RstFrameT = T.record(ash.RstFrame)
 RStackFrameT = T.record(ash.RStackFrame, version=T.const(2), reset_code=T.enum(t.NcpResetCode))
 ErrorFrameT = T.record(ash.ErrorFrame, version=T.const(2), reset_code=T.enum(t.NcpResetCode))
 
+def _not_acked(I):
+    from pyvc.values import SObj
+
+    return SObj(ash.NotAcked, {"args": (), "frame": NakFrameT.fresh(I, "nak")})
+
+
+def _ncp_failure(I):
+    from pyvc.values import SObj
+
+    return SObj(ash.NcpFailure, {"args": (), "code": T.enum(t.NcpResetCode).fresh(I, "code")})
+
+
+def _closed(I):
+    from pyvc.values import SObj
+
+    return SObj(RuntimeError, {"args": ("Connection has been closed",)})
+
+
+# Who may complete a future stored in _pending_data_frames, and with what (guarantee side: the
+# `_handle_ack` / `_cancel_pending_data_frames` contracts + the class scan in ash_sender_guarantee)
+ACK_PROMISE = {"result": T.const(True), "excs": [_not_acked, _ncp_failure, _closed], "no_cancel": True}
+
 ASH = ClassSpec(
     "bellows.ash.AshProtocol",
     fields=dict(
@@ -46,7 +78,7 @@ ASH = ClassSpec(
         _transport=T.opt(T.ext(TRANSPORT)),
         _buffer=T.bytearray,
         _discarding_until_next_flag=T.bool,
-        _pending_data_frames=T.map(T.future(), keys=(0, 7)),
+        _pending_data_frames=T.map(T.future(promise=ACK_PROMISE), keys=(0, 7)),
         _send_data_frame_semaphore=T.ext(SEMAPHORE),
         _tx_seq=T.int,
         _rx_seq=T.int,
@@ -58,6 +90,13 @@ ASH = ClassSpec(
         ("rx_seq_3bit", lambda self: 0 <= self._rx_seq < 8),
         ("tx_seq_3bit", lambda self: 0 <= self._tx_seq < 8),
         ("ack_timeout_clamped", lambda self: ash.T_RX_ACK_MIN <= self._t_rx_ack <= ash.T_RX_ACK_MAX),
+    ],
+    # fields other callbacks / tasks may change while a coroutine of the class is suspended.  NOT in the
+    # list: _pending_data_frames (only the semaphore holder stores / pops keys; others complete the
+    # futures in it), the semaphore, the upper protocol reference.
+    interference=[
+        "_transport", "_buffer", "_discarding_until_next_flag", "_tx_seq", "_rx_seq", "_t_rx_ack",
+        "_ncp_reset_code", "_ncp_state",
     ],
 )
 
@@ -353,3 +392,160 @@ def _(c):
     # "ACK, NAK and RST frames cause no upward delivery": their handlers' contracts say so; here: no
     # direct upward call is made by the dispatcher itself
     c.ensures("post.no_direct_upward", lambda fx: upward(fx) == [] and transport_writes(fx) == [])
+
+
+# ---------------------------------------------------------------------------
+# C05 / C01 sender side: _send_data_frame (coroutine, await rule) and send_data
+# ---------------------------------------------------------------------------
+SendFrameT = T.record(ash.DataFrame, frm_num=T.none, re_tx=T.none, ack_num=T.none, ezsp_frame=T.bytes)
+
+
+def data_writes(fx):
+    """DATA frames handed to _write_frame by this call, in order"""
+    return [r[2][0] for r in fx if r[0] == "ash.write_frame" and type(r[2][0]) is ash.DataFrame]
+
+
+def observations(fx, where):
+    return [r[2] for r in fx if r[0] == "observe" and r[1] == where]
+
+
+def writes_with_state(fx):
+    """(frame, state observed just before the call) for every _write_frame call"""
+    out = []
+    last = None
+    for r in fx:
+        if r[0] == "observe" and r[1] == "call:ash.write_frame":
+            last = r[2]
+        elif r[0] == "ash.write_frame":
+            out.append((r[2][0], last))
+    return out
+
+
+def write_attempts(fx):
+    """frames passed to _write_frame, including calls that raised because the transport is closed"""
+    return [r[3][0] for r in fx if r[0] == "observe" and r[1] == "call:ash.write_frame"]
+
+
+def awaits_of(fx):
+    return [r for r in fx if r[0] == "await"]
+
+
+@contract("bellows.ash.AshProtocol._send_data_frame", props=["C05", "C01", "C10"])
+def _(c):
+    c.self(ASH)
+    c.arg("frame", SendFrameT)
+    c.observe(lambda self: {"ncp_state": self._ncp_state, "tx_seq": self._tx_seq, "rx_seq": self._rx_seq,
+                            "t_rx_ack": self._t_rx_ack})
+    # exceptions a send may end with ("it then returns after an acknowledgement covering its frame or
+    # raises"): link failure, NAK on the last attempt, timeout on the last attempt, connection closed,
+    # cancellation of the task
+    c.raises("ncp_failure", ash.NcpFailure)
+    c.raises("not_acked", ash.NotAcked)
+    c.raises("timeout", TimeoutError)
+    c.raises("closed", RuntimeError)
+    c.raises("cancelled", asyncio.CancelledError)
+    # "transmits its DATA frame at most the configured number of attempts"
+    c.ensures("post.attempt_budget", lambda fx: len(data_writes(fx)) <= ash.ACK_TIMEOUTS, on="any")
+    c.ensures(
+        "post.only_data_frames_written",
+        lambda fx: len(data_writes(fx)) == len(frames_written(fx)) and transport_writes(fx) == [],
+        on="any",
+    )
+    # "always with the same frame number and payload and with the retransmit flag set on every repeat"
+    c.ensures(
+        "post.same_number_and_payload",
+        lambda frame, fx: all(
+            w.frm_num == data_writes(fx)[0].frm_num and w.ezsp_frame == frame.ezsp_frame for w in data_writes(fx)
+        ),
+        on="any",
+    )
+    c.ensures(
+        "post.retransmit_flag",
+        lambda fx: all((w.re_tx == (i > 0)) for i, w in enumerate(data_writes(fx))),
+        on="any",
+    )
+    c.ensures("post.frame_number_3bit", lambda fx: all(0 <= w.frm_num < 8 for w in data_writes(fx)), on="any")
+    # "frame numbers are consecutive": the number is the transmit counter at allocation, and the counter
+    # advances by exactly one (mod 8) in the same atomic segment as the first write
+    c.ensures(
+        "post.number_allocated_from_counter",
+        lambda fx: implies(
+            len(data_writes(fx)) > 0,
+            writes_with_state(fx)[0][1]["tx_seq"] == (data_writes(fx)[0].frm_num + 1) % 8
+            and observations(fx, "resume")[0]["tx_seq"] == data_writes(fx)[0].frm_num,
+        ),
+        on="any",
+    )
+    # ackNum piggybacked on every (re)transmission is the receiver's current expected number
+    c.ensures(
+        "post.fresh_ack_num",
+        lambda fx: all(w.ack_num == s["rx_seq"] for w, s in writes_with_state(fx)),
+        on="any",
+    )
+    # "no DATA frame is written until an RSTACK has been received": every write happens in a segment in
+    # which the link state was checked not to be FAILED (only rstack/rst handlers leave FAILED)
+    c.ensures(
+        "post.no_write_in_failed_state",
+        lambda fx: all(s["ncp_state"] != ash.NcpState.FAILED for w, s in writes_with_state(fx)),
+        on="any",
+    )
+    # "a repeat happening either at once on a NAK or after an acknowledgement timeout that always lies
+    # within the protocol's minimum and maximum"
+    c.ensures(
+        "post.timeout_within_bounds",
+        lambda fx: all(ash.T_RX_ACK_MIN <= r[2][0] <= ash.T_RX_ACK_MAX for r in fx if r[0] == "timeout.armed"),
+        on="any",
+    )
+    c.ensures(
+        "post.one_timed_wait_per_write",
+        lambda fx: len([r for r in fx if r[0] == "timeout.armed"]) <= len(data_writes(fx)),
+        on="any",
+    )
+    c.ensures(
+        "post.no_sleep",
+        lambda fx: [r for r in fx if r[0] == "asyncio.sleep"] == [],
+        on="any",
+    )
+    # "it then returns after an acknowledgement covering its frame": a normal return happens only when
+    # the last thing awaited was the acknowledgement future of this frame completing with a result
+    # (by ACK_PROMISE only _handle_ack with a covering ackNum does that)
+    c.ensures(
+        "post.returns_only_after_ack",
+        lambda fx: len(awaits_of(fx)) >= 2
+        and awaits_of(fx)[-1][1] == "future"
+        and awaits_of(fx)[-1][2] == "result"
+        and len(data_writes(fx)) >= 1,
+    )
+    # "When the budget is exhausted ... the upper layer is told once with the reason, waiting sends fail"
+    c.ensures(
+        "post.budget_exhausted_reported_once",
+        lambda fx: implies(
+            len(data_writes(fx)) == ash.ACK_TIMEOUTS
+            and awaits_of(fx)[-1][2] in ("timeout", "exception:NotAcked"),
+            [r[2][0] for r in calls(fx, "ash.enter_failed_state")]
+            == [t.NcpResetCode.ERROR_EXCEEDED_MAXIMUM_ACK_TIMEOUT_COUNT],
+        ),
+        on="raise",
+    )
+    c.ensures(
+        "post.failed_state_only_on_exhaustion",
+        lambda fx: implies(
+            len(calls(fx, "ash.enter_failed_state")) > 0,
+            len(calls(fx, "ash.enter_failed_state")) == 1 and len(data_writes(fx)) == ash.ACK_TIMEOUTS,
+        ),
+        on="any",
+    )
+    # bookkeeping: the acknowledgement future of this send does not stay registered
+    c.ensures(
+        "post.semaphore_released",
+        lambda fx: len(calls(fx, "semaphore.__aexit__")) == len([r for r in awaits_of(fx) if r[1] == "semaphore.__aenter__" and r[2] == "return"]),
+        on="any",
+    )
+    c.ensures(
+        "post.no_bookkeeping_left",
+        lambda self, fx: unchanged_except(
+            self._pending_data_frames, old(self._pending_data_frames), [f.frm_num for f in write_attempts(fx)[:1]]
+        )
+        and all(f.frm_num not in self._pending_data_frames for f in write_attempts(fx)[:1]),
+        on="any",
+    )
